@@ -17,10 +17,14 @@ E == Tr[l]
 Flag(c, ok) == IF ok THEN {} ELSE {c}
 Init == /\ tid \in 1..Len(Traces) /\ l = 1 /\ bad = {}
         /\ R = [acc |-> {}, rc4 |-> {}, rc5 |-> {}, eodok |-> {}, eod4 |-> {}, eod5 |-> {}, msg |-> 0,
-                fails |-> {}, msg5 |-> FALSE, stall |-> -1, returned |-> FALSE, nrcpt |-> 0, mailcls |-> 0, early |-> {}, nonrcpt |-> FALSE, xearly |-> FALSE]
+                fails |-> {}, msg5 |-> FALSE, stall |-> -1, returned |-> FALSE, nrcpt |-> 0, mailcls |-> 0, early |-> {}, nonrcpt |-> FALSE, xearly |-> FALSE, ehlo500 |-> FALSE, helo |-> FALSE]
 Cls(c) == c \div 100
 \* failure events the downstream produced: "4", "5" (reply classes) and "x" (disconnect, garbage, silence, refusal)
-FailOf(e) == IF e.stage = "starttls_opt" /\ e.act = "code" THEN {}      \* STARTTLS refused, TLS not required: delivery goes on in clear
+\* "500" to EHLO means "EHLO not understood": an SMTP client then says HELO, and it is the answer to HELO that counts
+\* (an LMTP client has no such fallback: there the 500 is the failure it looks like - see Fb5)
+Ehlo500(e) == e.stage = "ehlo" /\ e.act = "code" /\ e.code = 500
+FailOf(e) == IF Ehlo500(e) THEN {} ELSE
+             IF e.stage = "starttls_opt" /\ e.act = "code" THEN {}      \* STARTTLS refused, TLS not required: delivery goes on in clear
              ELSE IF e.act = "noauth" THEN {"5"}      \* the relay has to authenticate and the EHLO reply in force does not offer AUTH
              ELSE IF e.act = "code" THEN (IF Cls(e.code) = 4 THEN {"4"} ELSE IF Cls(e.code) = 5 THEN {"5"} ELSE {}) ELSE {"x"}
 EvCall == /\ E.t = "call" /\ R' = [R EXCEPT !.nrcpt = E.nrcpt] /\ bad' = bad
@@ -30,8 +34,10 @@ EvPeer ==
          relevant == E.stage \notin {"quit", "rset"} \/ ~R.returned
      IN R' = [R EXCEPT !.fails = IF E.stage = "quit" THEN @ ELSE @ \cup f,
                        \* a 5xx answer that concerns the whole message (not one recipient among several)
+                       !.ehlo500 = @ \/ Ehlo500(E),
+                       !.helo = @ \/ E.stage = "helo",
                        !.msg5 = @ \/ E.act = "noauth"
-                                  \/ (E.act = "code" /\ Cls(E.code) = 5 /\ E.stage \in {"banner", "ehlo", "helo", "starttls", "auth", "mail", "data", "exit", "http", "dns"})
+                                  \/ (E.act = "code" /\ Cls(E.code) = 5 /\ ~Ehlo500(E) /\ E.stage \in {"banner", "ehlo", "helo", "starttls", "auth", "mail", "data", "exit", "http", "dns"})
                                   \/ (E.act = "code" /\ Cls(E.code) = 5 /\ E.stage = "eod" /\ ~T.cfg.lmtp),
                        !.acc = IF E.stage = "rcpt" /\ E.act = "code" /\ Cls(E.code) = 2 THEN @ \cup {E.i} ELSE @,
                        !.rc4 = IF E.stage = "rcpt" /\ E.act = "code" /\ Cls(E.code) = 4 THEN @ \cup {E.i} ELSE @,
@@ -51,9 +57,13 @@ EvPeer ==
                                      \/ (f # {} /\ E.stage = "rcpt" /\ E.act # "code")]
   /\ bad' = bad
 Rcpts == 0..(R.nrcpt - 1)
+\* an EHLO/LHLO refused with 500 and no HELO after it: the refusal stands
+Fb5 == R.ehlo500 /\ ~R.helo
+Fails == R.fails \cup (IF Fb5 THEN {"5"} ELSE {})
+Msg5 == R.msg5 \/ Fb5
 \* the downstream positively accepted recipient i and the message (per recipient for LMTP)
 Accepted(i) == IF T.cfg.kind = "smtp" THEN i \in R.acc /\ (IF T.cfg.lmtp THEN i \in R.eodok ELSE 0 \in R.eodok)
-               ELSE R.fails = {}
+               ELSE Fails = {}
 EvRet ==
   /\ E.t = "ret"
   /\ R' = [R EXCEPT !.returned = TRUE]
@@ -63,17 +73,17 @@ EvRet ==
                  (E.kind \in {"whole", "map"}) => \A i \in Rcpts : E.per[i + 1] = "ok" => Accepted(i))
        \cup Flag("C11_Class",
                  /\ (E.kind = "raise" /\ E.cls = "P") =>
-                       \/ R.msg5
+                       \/ Msg5
                        \/ (Rcpts \subseteq (R.rc4 \cup R.rc5) /\ R.rc5 # {})       \* every recipient refused, one of them for good
                        \/ (T.cfg.lmtp /\ \A i \in Rcpts : i \in R.rc5 \/ i \in R.eod5 \/ i \in R.rc4 \/ i \in R.eod4)
-                 /\ (E.kind = "raise" /\ E.cls = "T") => R.fails \cap {"4", "x"} # {}
+                 /\ (E.kind = "raise" /\ E.cls = "T") => Fails \cap {"4", "x"} # {}
                  /\ (E.kind = "map" /\ T.cfg.kind = "smtp") =>
                        \A i \in Rcpts : /\ E.per[i + 1] = "P" => (i \in R.rc5 \/ i \in R.eod5 \/ (~T.cfg.lmtp /\ 0 \in R.eod5))
-                                        /\ E.per[i + 1] = "T" => (i \in R.rc4 \/ i \in R.eod4 \/ (~T.cfg.lmtp /\ 0 \in R.eod4) \/ "x" \in R.fails))
+                                        /\ E.per[i + 1] = "T" => (i \in R.rc4 \/ i \in R.eod4 \/ (~T.cfg.lmtp /\ 0 \in R.eod4) \/ "x" \in Fails))
        \* when the only thing that went wrong is that recipients were refused, each of them is reported with the class
        \* of its own refusal, also when the others were refused differently
        \cup Flag("C11_OwnClass",
-                 (T.cfg.kind = "smtp" /\ ~R.nonrcpt /\ E.kind \in {"raise", "map"}) =>
+                 (T.cfg.kind = "smtp" /\ ~R.nonrcpt /\ ~Fb5 /\ E.kind \in {"raise", "map"}) =>
                      \A i \in Rcpts : LET rep == IF E.kind = "raise" THEN E.cls ELSE E.per[i + 1] IN
                                        /\ (i \in R.rc5 /\ i \notin R.rc4) => rep = "P"
                                        /\ (i \in R.rc4 /\ i \notin R.rc5) => rep = "T")
@@ -82,9 +92,9 @@ EvRet ==
        \cup Flag("C11_MailVerdict",
                  (T.cfg.kind = "smtp" /\ R.mailcls # 0 /\ ~R.xearly) =>
                      E.kind = "raise" /\ E.cls = (IF R.mailcls = 5 THEN "P" ELSE "T"))
-       \cup Flag("C11_NoSpuriousFailure", R.fails = {} => E.kind \in {"whole", "map"} /\ \A i \in Rcpts : E.per[i + 1] = "ok")
+       \cup Flag("C11_NoSpuriousFailure", Fails = {} => E.kind \in {"whole", "map"} /\ \A i \in Rcpts : E.per[i + 1] = "ok")
        \cup Flag("C14_Bounded", R.stall # -1 => E.now <= T.cfg.deadline)
-       \cup Flag("C14_TransientOnTimeout", (R.stall # -1 /\ R.fails = {"x"}) =>
+       \cup Flag("C14_TransientOnTimeout", (R.stall # -1 /\ Fails = {"x"}) =>
                      \/ (E.kind = "raise" /\ E.cls = "T")
                      \/ (E.kind = "map" /\ \A i \in Rcpts : E.per[i + 1] = "T" \/ (E.per[i + 1] = "ok" /\ Accepted(i))))
 EvEnd == /\ E.t = "end" /\ R' = R
